@@ -335,8 +335,35 @@ def check(case: t.Any, ctx: Ctx) -> None:
 
 # ---- mapping-form exactness, global-handler placement ------------------------------------------------------
 
+ANY_SCALAR = [f"any-scalar:{src}:{pos}" for src in ('call', 'class', 'inherited', 'enclosing', 'class+unrelated-call')
+              for pos in ('Any', 'list', 'tuple', 'List[Any]', 'Dict[str, Any]', 'int')]
+
+
+def check_any_scalar(case: str, ctx: Ctx) -> None:
+    """A handler for a plain scalar type (ints are written halved) reaches ints that sit at untyped positions, on output, from every source."""
+    import pane
+    from .c17 import _handlers
+    (_, src, pos) = case.split(':')
+    H = _handlers()['double']      # {int: Mul(2)}: from_data doubles, into_data halves
+    ftype = {'Any': t.Any, 'list': list, 'tuple': tuple, 'List[Any]': t.List[t.Any], 'Dict[str, Any]': t.Dict[str, t.Any], 'int': int}[pos]
+    fval = {'Any': 10, 'list': [10, 'a'], 'tuple': (10, None), 'List[Any]': [10], 'Dict[str, Any]': {'k': 10}, 'int': 10}[pos]
+    want = {'Any': 5, 'list': [5, 'a'], 'tuple': (5, None), 'List[Any]': [5], 'Dict[str, Any]': {'k': 5}, 'int': 5}[pos]
+    base_kw = {'custom': H} if src == 'inherited' else {}
+    Base = type('ASBase', (pane.PaneBase,), {'__annotations__': {}}, **base_kw)
+    Inner = type('ASInner', (Base,), {'__annotations__': {'f': ftype}}, **({'custom': H} if src in ('class', 'class+unrelated-call') else {}))
+    Outer = type('ASOuter', (pane.PaneBase,), {'__annotations__': {'inner': Inner}}, **({'custom': H} if src == 'enclosing' else {}))
+    _KEEP.extend([Base, Inner, Outer])
+    x = Outer.make_unchecked(inner=Inner.make_unchecked(f=fval))
+    custom: t.Any = H if src == 'call' else ({bytes: __import__('pane.convert', fromlist=['make_converter']).make_converter(bytes)} if src == 'class+unrelated-call' else None)
+    (k, d) = outcome(lambda: pane.into_data(x, Outer, custom=custom))
+    got = d['inner']['f'] if k == 'ok' else d
+    if k != 'ok' or got != want or type(got) is not type(want):
+        ctx.fail('precedence-into', f"any-scalar:{src}:{pos}", f"a handler that writes ints halved, given at {src} level; an int at a field typed {pos}: "
+                 f"into_data wrote {short(got, 80)}, expected {want!r}")
+
+
 def misc_cases(shard: int, nshards: int) -> t.Iterator[t.Any]:
-    for (i, c) in enumerate(['mapping-not-subclass', 'mapping-not-parameterised', 'global-not-for-int', 'global-before-sequence', 'global-after-protocol',
+    for (i, c) in enumerate([*ANY_SCALAR, 'mapping-not-subclass', 'mapping-not-parameterised', 'global-not-for-int', 'global-before-sequence', 'global-after-protocol',
                              'global-before-builtin-list', 'global-before-builtin-dict', 'global-before-builtin-tuple', 'global-nested-in-dataclass']):
         if i % nshards == shard:
             yield c
@@ -345,9 +372,12 @@ def misc_cases(shard: int, nshards: int) -> t.Iterator[t.Any]:
 def check_misc(case: str, ctx: Ctx) -> None:
     import pane
     _ensure_global()
-    ctx.label(case)
+    ctx.label(case.split(':')[0] if case.startswith('any-scalar') else case)
     ctx.nontrivial(True)
     GLOBAL_TABLE.clear()
+    if case.startswith('any-scalar:'):
+        check_any_scalar(case, ctx)
+        return
     conv = _label_conv('C')
     if case == 'mapping-not-subclass':
         class M1:
